@@ -200,32 +200,54 @@ structure SignOutcome where
   auxRest : Bytes
 deriving Repr
 
-/-- `hss_sign_core` for the ordinary (non fast_verify) path. `cb` is the key-update callback. -/
-def hssSign (H : HashFn) (cfg : Config) (msg sk : Bytes) (cb : Bytes → Bool) (aux : Option Bytes) : P SignOutcome := do
-  let fail (a : Option Bytes) (r : Bytes) : SignOutcome := ⟨none, [], a, r⟩
-  let some k := RefKey.parse H.n sk | return fail aux []
-  let some ps := paramsOfBytes cfg H.n k.params | return fail aux []
-  let some p0 := ps.head? | return fail aux []
+/-- everything `hss_sign_core` does between parsing the key and invoking the update callback -/
+inductive Prepared where
+  /-- a fallible step failed (`?` returned `Err`): visible aux buffer and the bytes cut off behind it -/
+  | failed (aux : Option Bytes) (auxRest : Bytes)
+  /-- signature assembled: per-level heights (for the counter increment), signature bytes, aux -/
+  | ready (heights : List Nat) (sig : Bytes) (aux : Option Bytes) (auxRest : Bytes)
+deriving Repr
+
+/-- `hss_sign_core` from after `from_binary_representation` up to (excluding) `private_key_update_function(...)` -/
+def signPrepare (H : HashFn) (cfg : Config) (msg : Bytes) (k : RefKey) (aux : Option Bytes) : P Prepared := do
+  let some ps := paramsOfBytes cfg H.n k.params | return .failed aux []
+  let some p0 := ps.head? | return .failed aux []
   let (e0, buf, rest) := getExpandedAuxData H cfg aux k.seed p0.lms.h
-  let some (ex, e1) ← expandPrivateKey H cfg k e0 | return fail (auxAfter e0 buf) rest
+  let some (ex, e1) ← expandPrivateKey H cfg k e0 | return .failed (auxAfter e0 buf) rest
   let L := ex.levels.length
-  let some bottom := ex.levels.getLast? | return fail (auxAfter e1 buf) rest
+  let some bottom := ex.levels.getLast? | return .failed (auxAfter e1 buf) rest
   let C := signatureRandomizer H bottom.key.seed bottom.key.I bottom.q
   -- for L > 1 the aux view was dropped inside HssPrivateKey::from
   let r ← lmsSign H cfg bottom.key bottom.q msg C (if L == 1 then e1 else none)
-  let some (bsig, e2') := r | return fail (auxAfter e1 buf) rest
+  let some (bsig, e2') := r | return .failed (auxAfter e1 buf) rest
   let e2 := if L == 1 then e2' else e1
   let spks := (List.range (L - 1)).map fun i => ex.sigs.getD i [] ++ ex.pubs.getD i []
-  for s in spks do
-    P.require "hss/signing.rs:HssSignedPublicKey::to_binary_representation capacity" (s.length ≤ cfg.maxSignedPkLen)
+  P.require "hss/signing.rs:HssSignedPublicKey::to_binary_representation capacity"
+    (spks.all fun s => s.length ≤ cfg.maxSignedPkLen)
   let sigBytes := Bytes.u32be (L - 1) ++ spks.flatten ++ bsig
   P.require "hss/signing.rs:HssSignature::to_binary_representation capacity" (sigBytes.length ≤ cfg.maxHssSigLen)
-  let newKey := (k.increment H.n (ex.levels.map (·.key.lms.h))).bytes
-  P.require "hss/reference_impl_private_key.rs:to_binary_representation capacity" (newKey.length ≤ Config.maxPrivKeyLen)
-  if !cb newKey then return ⟨none, [newKey], auxAfter e2 buf, rest⟩
-  -- Signature::from_bytes_verbose: ArrayVec::try_from
-  if sigBytes.length > 65535 || sigBytes.length > cfg.maxHssSigLen then return ⟨none, [newKey], auxAfter e2 buf, rest⟩
-  pure ⟨some sigBytes, [newKey], auxAfter e2 buf, rest⟩
+  let hs := ex.levels.map (·.key.lms.h)
+  P.require "hss/reference_impl_private_key.rs:to_binary_representation capacity"
+    ((k.increment H.n hs).bytes.length ≤ Config.maxPrivKeyLen)
+  pure (.ready hs sigBytes (auxAfter e2 buf) rest)
+
+/-- the tail of `hss_sign_core`: advance the key (`rfc_private_key.increment`), hand the successor to the callback,
+then (only if it accepted) wrap the signature bytes (`Signature::from_bytes_verbose`, a capacity-checked copy) -/
+def signCommit (n : Nat) (cfg : Config) (cb : Bytes → Bool) (k : RefKey) : Prepared → SignOutcome
+  | .failed a r => ⟨none, [], a, r⟩
+  | .ready hs sig a r =>
+    let newKey := (k.increment n hs).bytes
+    if !cb newKey then ⟨none, [newKey], a, r⟩
+    else if sig.length > 65535 || sig.length > cfg.maxHssSigLen then ⟨none, [newKey], a, r⟩
+    else ⟨some sig, [newKey], a, r⟩
+
+/-- `hss_sign_core` for the ordinary (non fast_verify) path. `cb` is the key-update callback. -/
+def hssSign (H : HashFn) (cfg : Config) (msg sk : Bytes) (cb : Bytes → Bool) (aux : Option Bytes) : P SignOutcome :=
+  match RefKey.parse H.n sk with
+  | none => pure ⟨none, [], aux, []⟩
+  | some k => do
+    let p ← signPrepare H cfg msg k aux
+    pure (signCommit H.n cfg cb k p)
 
 /-- `SigningKey::try_sign_with_aux`: the closure overwrites the in-memory key -/
 def trySign (H : HashFn) (cfg : Config) (msg sk : Bytes) (aux : Option Bytes) : P (Option (SignOutcome × Bytes)) := do
